@@ -291,3 +291,46 @@ Proof.
     rewrite (IHf _ _ E1); [|cbn [snd]; intros x Hx; apply HA; apply in_or_app; auto]. cbn [bind].
     rewrite (IHr _ _ E2); [|cbn [snd]; intros x Hx; apply HA; apply in_or_app; auto]. reflexivity.
 Qed.
+
+(* ---- the archive order: _FilterAlignedFields makes two passes over the top-level fields ---- *)
+Definition sel (aligned : bool) (f : field) : bool :=
+  match f with FABuf | FAIov => aligned | _ => negb aligned end.
+Fixpoint filt (aligned : bool) (fs : fields) : fields :=
+  match fs with
+  | FNil => FNil
+  | FCons off f r => if sel aligned f then FCons off f (filt aligned r) else filt aligned r
+  end.
+Fixpoint fapp (a b : fields) : fields :=
+  match a with FNil => b | FCons off f r => FCons off f (fapp r b) end.
+(* the top-level fields in the order the archive visits them: aligned ones first *)
+Definition perm (fs : fields) : fields := fapp (filt true fs) (filt false fs).
+
+Lemma d_pass_filt al : forall fs st base, d_pass cfg_final al fs st base = d_fields cfg_final (filt al fs) st base.
+Proof.
+  induction fs as [|off f r IH]; intros st base; [reflexivity|].
+  destruct f; destruct al; cbn [d_pass filt sel negb d_fields d_field bind fix_nested_al cfg_final]; rewrite ?IH; try reflexivity;
+    match goal with |- bind ?e _ = bind ?e _ => destruct e; cbn [bind]; [apply IH|reflexivity] end.
+Qed.
+
+Lemma s_pass_filt al : forall fs st base, s_pass cfg_final al fs st base = s_fields cfg_final (filt al fs) st base.
+Proof.
+  induction fs as [|off f r IH]; intros st base; [reflexivity|].
+  destruct f; destruct al; cbn [s_pass filt sel negb s_fields s_field bind fix_nested_al cfg_final]; rewrite ?IH; try reflexivity;
+    match goal with |- bind ?e _ = bind ?e _ => destruct e; cbn [bind]; [apply IH|reflexivity] end.
+Qed.
+
+Lemma d_fields_app a : forall b st base, d_fields cfg_final (fapp a b) st base = (st1 <- d_fields cfg_final a st base ;; d_fields cfg_final b st1 base).
+Proof.
+  induction a as [|off f r IH]; intros b st base; [reflexivity|]. cbn [fapp]. rewrite !d_fields_cons.
+  destruct (d_field cfg_final f st (base + off)); cbn [bind]; [apply IH|reflexivity].
+Qed.
+
+Lemma s_fields_cons c off f r st base :
+  s_fields c (FCons off f r) st base = (st1 <- s_field c f st (base + off) ;; s_fields c r st1 base).
+Proof. reflexivity. Qed.
+
+Lemma s_fields_app a : forall b st base, s_fields cfg_final (fapp a b) st base = (st1 <- s_fields cfg_final a st base ;; s_fields cfg_final b st1 base).
+Proof.
+  induction a as [|off f r IH]; intros b st base; [reflexivity|]. cbn [fapp]. rewrite !s_fields_cons.
+  destruct (s_field cfg_final f st (base + off)); cbn [bind]; [apply IH|reflexivity].
+Qed.
